@@ -4,7 +4,7 @@ import json, os, glob
 root = "/verif/seeded"
 first = json.load(open(f"{root}/first_pass.json"))
 rows = []
-for d in sorted(glob.glob(f"{root}/C*-m[0-9]") + glob.glob(f"{root}/C*-r2m[0-9]") + glob.glob(f"{root}/C*-r3m[0-9]")):
+for d in sorted(glob.glob(f"{root}/C*-m[0-9]") + glob.glob(f"{root}/C*-r2m[0-9]") + glob.glob(f"{root}/C*-r3m[0-9]") + glob.glob(f"{root}/C*-r4m[0-9]")):
     sid = os.path.basename(d)
     meta = json.load(open(f"{d}/meta.json"))
     det = None
@@ -32,7 +32,7 @@ for r in rows:
 n = len(rows)
 out += ["", f"{n} changes; {sum(1 for r in rows if r[4] == 'yes')} were caught by the property's own quick check before any strengthening, "
         f"{sum(1 for r in rows if r[5].startswith('yes'))} are caught by it now."]
-for tag, name in (("-r2", "Second"), ("-r3", "Third")):
+for tag, name in (("-r2", "Second"), ("-r3", "Third"), ("-r4", "Fourth")):
     rr = [r for r in rows if tag in r[0]]
     if rr:
         out += [f"{name} round alone: {len(rr)} changes, {sum(1 for r in rr if r[4] == 'yes')} at first contact, {sum(1 for r in rr if r[5].startswith('yes'))} now."]
